@@ -418,8 +418,87 @@ class DB:
         self._closures = None
         self.inlined = {}          # caller id -> [helper ids inlined into it]
         self.helpers = set()       # ids of functions unknown to the reviewed baseline that were inlined
+        self.renamed = {}          # new id -> reviewed id
         if os.environ.get("WACVERIF_NO_INLINE") != "1":
+            self._detect_renames()
             self._inline_new_helpers()
+
+    # ---- renamed functions
+    @staticmethod
+    def fingerprint(fn):
+        """what identifies a function body independently of its name: arity and the set of callees (last two path segments)"""
+        cs = set()
+        for b in fn.j["blocks"]:
+            t = b["term"]
+            if t and t.get("k") == "call" and t.get("callee"):
+                pth = strip_generics(t["callee"].get("resolved") or t["callee"]["path"])
+                cs.add("::".join(pth.split("::")[-2:]))
+        return {"args": fn.arg_count, "callees": sorted(cs)}
+
+    def _baseline(self):
+        base_p = os.path.join(os.path.dirname(os.path.abspath(__file__)), "..", "specs", "known_fns.json")
+        if not os.path.exists(base_p):
+            return None
+        b = json.load(open(base_p))["fns"]
+        return b if isinstance(b, dict) else {k: None for k in b}
+
+    def _detect_renames(self):
+        """A reviewed function that is gone while an unknown function with the same arity and (nearly) the same callees
+        exists in the same crate is a *rename*: the new function is given the reviewed id everywhere (its closures, every call
+        path, closure aggregates), so anchors, tables and who-may-call rules keep working across a rename refactoring."""
+        base = self._baseline()
+        if not base:
+            return
+        cur = {f.id: f for f in self.fns.values() if f.kind in ("Fn", "AssocFn") and "{closure" not in f.id and not f.from_expansion and f.crate in LIB_CRATES}
+        gone = [k for k in base if k not in self.fns and base[k] is not None]
+        fresh = [k for k in cur if k not in base]
+        if not gone or not fresh:
+            return
+        pairs = []
+        for n in fresh:
+            fp = self.fingerprint(cur[n])
+            best = []
+            for g in gone:
+                if g.split("::")[0] != n.split("::")[0] or base[g]["args"] != fp["args"]:
+                    continue
+                a, b = set(base[g]["callees"]), set(fp["callees"])
+                if not a and not b:
+                    sim = 1.0 if g.rsplit("::", 1)[0] == n.rsplit("::", 1)[0] else 0.0
+                else:
+                    sim = len(a & b) / float(len(a | b))
+                if g.rsplit("::", 1)[0] == n.rsplit("::", 1)[0]:
+                    sim += 0.15      # same impl / module
+                best.append((sim, g))
+            best.sort(reverse=True)
+            if best and best[0][0] >= 0.75 and (len(best) == 1 or best[0][0] - best[1][0] >= 0.1):
+                pairs.append((best[0][0], n, best[0][1]))
+        used = set()
+        for sim, n, g in sorted(pairs, reverse=True):
+            if g in used:
+                continue
+            used.add(g)
+            self.renamed[n] = g
+        if not self.renamed:
+            return
+        pats = [(re.compile("(?:::<[^<>]*>)?::".join(re.escape(seg) for seg in n.split("::")) + r"(?![A-Za-z0-9_])"), g) for n, g in self.renamed.items()]
+        for f in list(self.fns.values()):
+            txt = json.dumps(f.j)
+            hit = False
+            for pat, g in pats:
+                if pat.search(txt):
+                    txt = pat.sub(lambda m, g=g: g, txt)
+                    hit = True
+            if hit:
+                j = json.loads(txt)
+                oldid = f.id
+                f.j = j
+                f.raw_id = j["id"]
+                f.id = strip_generics(j["id"])
+                f.parent = strip_generics(j.get("parent"))
+                f._blocks = None
+                if f.id != oldid:
+                    del self.fns[oldid]
+                    self.fns[f.id] = f
 
     # ---- helper inlining
     def _inline_new_helpers(self):
@@ -432,7 +511,7 @@ class DB:
         base_p = os.path.join(os.path.dirname(os.path.abspath(__file__)), "..", "specs", "known_fns.json")
         if not os.path.exists(base_p):
             return
-        base = set(json.load(open(base_p))["fns"])
+        base = set(json.load(open(base_p))["fns"])   # list or dict of ids
         new = {f.id for f in self.fns.values() if f.kind in ("Fn", "AssocFn") and not f.from_expansion and f.id not in base
                and " as " not in f.id and "{closure" not in f.id and f.crate in LIB_CRATES and not any(l.startswith("{coroutine") or "{async" in l for l in f.locals[:1])}
         if not new:
